@@ -1849,6 +1849,8 @@ def compile_expr(e, leaves):
             return rec(("bin", x[1][1][:-len("WithOverflow")], x[1][2], x[1][3]))
         elif h == "call" and x[1] == "std::convert::num::from" and x[2]:
             return rec(x[2][0])
+        elif h == "ite":
+            src = "(%s if %s else %s)" % (rec(x[2]), rec(x[1]), rec(x[3]))
         elif h == "bin":
             a, b = rec(x[2]), rec(x[3])
             op = x[1]
@@ -1883,6 +1885,26 @@ def compile_expr(e, leaves):
     ns = {"_div": _div, "_rem": _rem}
     exec(code, ns)
     return ns["f"]
+
+
+def resolve_ites(cx, e, depth=0):
+    """replace two-definition locals (if/else joins) by ('ite', cond, then, else) using the switch that separates the definitions"""
+    from . import guards as G
+    if depth > 30 or not isinstance(e, tuple):
+        return e
+    if e[:1] == ("var",) and isinstance(e[1], int):
+        ds = cx.defs.get(e[1], [])
+        if len(ds) == 2 and all(d[0] == "stmt" for d in ds) and not cx.pdefs.get(e[1]):
+            g1, g2 = G.guards_of(cx.b, ds[0][1]), G.guards_of(cx.b, ds[1][1])
+            if g1 and g2 and g1[-1][0] == g2[-1][0]:
+                t1, t2 = G.truth(g1[-1][2]), G.truth(g2[-1][2])
+                if t1 is not None and t2 is not None and t1 != t2:
+                    a = resolve_ites(cx, sym.expr_rv(cx.b, ds[0][3]["rv"], stop=(e[1],)), depth + 1)
+                    b_ = resolve_ites(cx, sym.expr_rv(cx.b, ds[1][3]["rv"], stop=(e[1],)), depth + 1)
+                    c = resolve_ites(cx, g1[-1][1], depth + 1)
+                    return ("ite", c, a, b_) if t1 else ("ite", c, b_, a)
+        return e
+    return tuple(resolve_ites(cx, x, depth + 1) if isinstance(x, tuple) else x for x in e)
 
 
 def finite_leaves(e, cx, limit=1 << 20):
